@@ -109,3 +109,12 @@ KERNELS += [
     K("src_c03_fpba_is_cutting", _F, r"else if \((status == csearch_status::cutting[^)]*)\)", _CS, [("status", "Z")], "c03", _P),
     K("src_c03_fpba_is_null", _F, r"else if \((status == csearch_status::null[^)]*)\)", _CS, [("status", "Z")], "c03", _P),
 ]
+
+# ==== extension WHOLE (C03_Whole_Defs.v): the composed model of a whole RQB / FPBA run ====
+# which flag moveto() / append() hand to append(.., serious_step): the composed model issues its bundle operations through them
+KERNELS += [
+    K("src_c03_moveto_serious", _B, r"void bundle_t::moveto\([^)]*\)\s*\{\s*const auto serious_step\s*=\s*(.*?);", [], [], "c03", _P),
+    K("src_c03_append_serious", _B,
+      r"void bundle_t::append\(const vector_cmap_t y, const vector_cmap_t gy, const scalar_t fy\)\s*\{\s*const auto serious_step\s*=\s*(.*?);",
+      [], [], "c03", _P),
+]
